@@ -265,7 +265,7 @@ def unit_initial(S):
     S.prove("initial/fresh-env-and-policy-state", ctx, sand(kit.tree_eq(st.env_state, sp[0]), kit.tree_eq(st.policy_state, sp[1])),
             holes=holes, function=F_INIT, what="initial step state = (env.initial(k1), policy.reset(k2)) with k1, k2 derived from the key")
     S.prove("initial/keys-differ", ctx, list(holes.values())[0][0] != list(holes.values())[1][0],
-            hyps=[_split_injective(ctx, kc, 2)], function=F_INIT, what="env and policy receive different halves of the key")
+            hyps=[_split_injective(ctx, kc, 2)] + kit.rng_ground_injectivity([list(holes.values())[0][0], list(holes.values())[1][0]]), function=F_INIT, what="env and policy receive different halves of the key")
 
 
 def _split_injective(ctx, kc, n):
